@@ -1,6 +1,4 @@
-(** LogInv: the event-log invariant (I-log of DESIGN 5.0) and the facts behind properties/C05.v.
-
-    TO BE PROVED (no Admitted may remain).  Definitions below are fixed; helper lemmas are free. *)
+(** LogInv: the event-log invariant (I-log of DESIGN 5.0) and the facts behind properties/C05.v. *)
 From DynVerif Require Import Base Graph Spec.
 From DynVerif.proofs Require Import AListFacts CoreInv.
 From Coq Require Import Sorting.Sorted Sorting.Permutation.
@@ -19,3 +17,274 @@ Definition InvLog (g : graph) : Prop :=
   (forall k t, has_event t k false (g_events g) = true -> is_end (t - 1) (runs_of g k) = true) /\
   (forall k a b, In (a, b) (runs_of g k) -> a + 1 < b -> has_event (b + 1) k false (g_events g) = true) /\
   NoDup (g_events g).
+
+(** ** the event list: membership, frame lemmas, NoDup *)
+Lemma ev_same_eq t k op x : ev_same t k op x = true <-> x = (t, k, op).
+Proof.
+  destruct x as [[t' k'] op']. unfold ev_same.
+  rewrite !andb_true_iff, peqb_eq, eqb_true_iff, Z.eqb_eq.
+  split; [intros ((-> & ->) & ->); reflexivity | intros H; inversion H; auto].
+Qed.
+
+Lemma has_event_In t k op evs : has_event t k op evs = true <-> In (t, k, op) evs.
+Proof.
+  unfold has_event. rewrite existsb_exists. split.
+  - intros (x & Hin & Hx). apply ev_same_eq in Hx. subst. assumption.
+  - intros Hin. exists (t, k, op). split; [assumption|]. apply ev_same_eq. reflexivity.
+Qed.
+
+Lemma In_add_event x t k op evs : In x (add_event t k op evs) <-> In x evs \/ x = (t, k, op).
+Proof.
+  unfold add_event. destruct (existsb (ev_same t k op) evs) eqn:E.
+  - split; [auto|]. intros [H| ->]; [assumption|]. apply has_event_In. exact E.
+  - rewrite in_app_iff. simpl. intuition congruence.
+Qed.
+
+Lemma In_del_event x t k op evs : In x (del_event t k op evs) <-> In x evs /\ x <> (t, k, op).
+Proof.
+  unfold del_event. rewrite filter_In, negb_true_iff, <- not_true_iff_false, ev_same_eq. tauto.
+Qed.
+
+Lemma has_event_add t k op t' k' op' evs :
+  has_event t k op (add_event t' k' op' evs) = has_event t k op evs || ((t =? t') && peqb k k' && eqb op op').
+Proof.
+  apply eq_iff_eq_true. change ((t =? t') && peqb k k' && eqb op op') with (ev_same t k op (t', k', op')).
+  rewrite orb_true_iff, !has_event_In, ev_same_eq, In_add_event. intuition congruence.
+Qed.
+
+Lemma has_event_del t k op t' k' op' evs :
+  has_event t k op (del_event t' k' op' evs) = has_event t k op evs && negb ((t =? t') && peqb k k' && eqb op op').
+Proof.
+  apply eq_iff_eq_true. change ((t =? t') && peqb k k' && eqb op op') with (ev_same t k op (t', k', op')).
+  rewrite andb_true_iff, negb_true_iff, <- not_true_iff_false, !has_event_In, ev_same_eq, In_del_event.
+  intuition congruence.
+Qed.
+
+Lemma NoDup_add_event t k op evs : NoDup evs -> NoDup (add_event t k op evs).
+Proof.
+  intros Hnd. unfold add_event. destruct (existsb (ev_same t k op) evs) eqn:E; [assumption|].
+  apply (Permutation_NoDup (Permutation_cons_append evs (t, k, op))). constructor; [|assumption].
+  intros Hin. apply has_event_In in Hin. unfold has_event in Hin. congruence.
+Qed.
+
+Lemma NoDup_del_event t k op evs : NoDup evs -> NoDup (del_event t k op evs).
+Proof. apply NoDup_filter. Qed.
+
+(** ** the stream *)
+Lemma ins_ev_perm x l : Permutation (ins_ev x l) (x :: l).
+Proof.
+  induction l as [|y r IH]; simpl; [reflexivity|].
+  destruct (ev_time x <? ev_time y); [reflexivity|].
+  rewrite IH. apply perm_swap.
+Qed.
+
+Lemma fold_ins_perm evs : forall acc, Permutation (fold_left (fun acc e => ins_ev e acc) evs acc) (acc ++ evs).
+Proof.
+  induction evs as [|e r IH]; intros acc; simpl.
+  - rewrite app_nil_r. reflexivity.
+  - rewrite IH. rewrite (ins_ev_perm e acc). simpl. apply Permutation_middle.
+Qed.
+
+Lemma stream_perm g : Permutation (stream g) (g_events g).
+Proof. unfold stream. apply (fold_ins_perm (g_events g) []). Qed.
+
+Lemma ins_ev_sorted x l : Sorted (fun x y => ev_time x <= ev_time y) l -> Sorted (fun x y => ev_time x <= ev_time y) (ins_ev x l).
+Proof.
+  induction l as [|y r IH]; simpl; intros Hs.
+  - constructor; constructor.
+  - destruct (ev_time x <? ev_time y) eqn:E.
+    + constructor; [assumption|]. constructor. lia.
+    + inversion Hs as [|? ? Hr Hhd]; subst. constructor; [auto|].
+      destruct r as [|z r']; simpl; [constructor; lia|].
+      destruct (ev_time x <? ev_time z); constructor; [lia|]. inversion Hhd; assumption.
+Qed.
+
+Lemma fold_ins_sorted evs : forall acc, Sorted (fun x y => ev_time x <= ev_time y) acc ->
+  Sorted (fun x y => ev_time x <= ev_time y) (fold_left (fun acc e => ins_ev e acc) evs acc).
+Proof.
+  induction evs as [|e r IH]; intros acc Hs; simpl; [assumption|]. apply IH. apply ins_ev_sorted. assumption.
+Qed.
+
+Lemma stream_sorted g : Sorted (fun x y => ev_time x <= ev_time y) (stream g).
+Proof. unfold stream. apply fold_ins_sorted. constructor. Qed.
+
+Lemma stream_In g x : In x (stream g) <-> In x (g_events g).
+Proof.
+  split; apply Permutation_in; [apply stream_perm | apply Permutation_sym, stream_perm].
+Qed.
+
+Lemma stream_NoDup g : NoDup (g_events g) -> NoDup (stream g).
+Proof. apply Permutation_NoDup. apply Permutation_sym, stream_perm. Qed.
+
+(** ** run starts / ends *)
+Lemma is_start_cons t a b l : is_start t ((a, b) :: l) = (a =? t) || is_start t l.
+Proof. reflexivity. Qed.
+Lemma is_end_cons t a b l : is_end t ((a, b) :: l) = (b =? t) || is_end t l.
+Proof. reflexivity. Qed.
+
+Lemma is_start_mem l t : canon l -> is_start t l = mem t l && negb (mem (t - 1) l).
+Proof.
+  induction l as [|[a b] r IH]; intros Hc; [reflexivity|].
+  rewrite is_start_cons, (IH (canon_tail _ _ _ Hc)).
+  pose proof (canon_older_below _ _ _ Hc) as Hb.
+  assert (a <= b) by (simpl in Hc; tauto).
+  change (mem t ((a, b) :: r)) with (in_itv t (a, b) || mem t r).
+  change (mem (t - 1) ((a, b) :: r)) with (in_itv (t - 1) (a, b) || mem (t - 1) r).
+  unfold in_itv; simpl fst; simpl snd.
+  destruct (mem t r) eqn:M1; [pose proof (Hb _ M1)|];
+    (destruct (mem (t - 1) r) eqn:M2; [pose proof (Hb _ M2)|]); lia.
+Qed.
+
+Lemma is_end_mem l t : canon l -> is_end t l = mem t l && negb (mem (t + 1) l).
+Proof.
+  induction l as [|[a b] r IH]; intros Hc; [reflexivity|].
+  rewrite is_end_cons, (IH (canon_tail _ _ _ Hc)).
+  pose proof (canon_older_below _ _ _ Hc) as Hb.
+  assert (a <= b) by (simpl in Hc; tauto).
+  change (mem t ((a, b) :: r)) with (in_itv t (a, b) || mem t r).
+  change (mem (t + 1) ((a, b) :: r)) with (in_itv (t + 1) (a, b) || mem (t + 1) r).
+  unfold in_itv; simpl fst; simpl snd.
+  destruct (mem t r) eqn:M1; [pose proof (Hb _ M1)|];
+    (destruct (mem (t + 1) r) eqn:M2; [pose proof (Hb _ M2)|]); lia.
+Qed.
+
+Lemma InvLog_init dir rem : InvLog (empty_graph dir rem).
+Proof.
+  unfold InvLog, runs_of; simpl. repeat split; try discriminate; try tauto. constructor.
+Qed.
+
+Lemma InvLog_same g g' : g_edges g' = g_edges g -> g_events g' = g_events g -> InvLog g -> InvLog g'.
+Proof. unfold InvLog, runs_of. intros -> ->. tauto. Qed.
+
+Lemma InvLog_frame g g' k0 l' :
+  InvLog g ->
+  (forall k, runs_of g' k = if peqb k k0 then l' else runs_of g k) ->
+  (forall k t op, peqb k k0 = false -> has_event t k op (g_events g') = has_event t k op (g_events g)) ->
+  NoDup (g_events g') ->
+  (forall t, has_event t k0 true (g_events g') = is_start t l') ->
+  (forall t, has_event t k0 false (g_events g') = true -> is_end (t - 1) l' = true) ->
+  (forall a b, In (a, b) l' -> a + 1 < b -> has_event (b + 1) k0 false (g_events g') = true) ->
+  InvLog g'.
+Proof.
+  intros (H1 & H2 & H3 & H4) Hr Hf Hnd P1 P2 P3. split; [|split; [|split]]; auto.
+  - intros k t. rewrite Hr. destruct (peqb k k0) eqn:E; [apply peqb_eq in E; subst; auto | rewrite Hf; auto].
+  - intros k t. rewrite Hr. destruct (peqb k k0) eqn:E; [apply peqb_eq in E; subst; auto | rewrite Hf; auto].
+  - intros k a b. rewrite Hr. destruct (peqb k k0) eqn:E; [apply peqb_eq in E; subst; eauto | rewrite Hf; eauto].
+Qed.
+
+Lemma runs_of_step g g' k0 new :
+  (forall k', aget peqb k' (g_edges g') = if peqb k' k0 then Some new else aget peqb k' (g_edges g)) ->
+  forall k, runs_of g' k = if peqb k k0 then tl_list new else runs_of g k.
+Proof. intros H k. unfold runs_of. rewrite H. destruct (peqb k k0); reflexivity. Qed.
+
+Ltac bclean := rewrite ?andb_false_r, ?andb_true_r, ?orb_false_r; cbn [andb orb negb eqb]; rewrite ?andb_false_r, ?andb_true_r, ?orb_false_r.
+
+Lemma InvLog_step g u v t e g' o :
+  g_rem g = true -> (forall k, ocanon (aget peqb k (g_edges g))) -> InvLog g ->
+  add_interaction g u v t e = (g', o) -> InvLog g'.
+Proof.
+  intros Hrem Hcan HI Hs.
+  destruct t as [s|]; [| unfold add_interaction in Hs; inversion Hs; subst; auto].
+  pose proof (step_edges _ _ _ _ _ _ _ Hs) as Hst. cbv zeta in Hst. destruct Hst as (_ & _ & Hst).
+  unfold call_end in Hst. revert Hst Hs. unfold add_interaction. rewrite Hrem. cbv beta iota zeta.
+  change (g_events (ensure_ends g u v)) with (g_events g).
+  change (g_edges (ensure_ends g u v)) with (g_edges g).
+  set (k := nk (g_dir g) u v).
+  assert (Hx : exists f closing, (closing = false -> f = s) /\
+     match e with Some e' => e' - 1 | None => s end = f /\
+     match e with Some _ => true | None => false end = closing /\
+     match e with Some _ => false | None => true end = negb closing).
+  { destruct e as [e'|]; [exists (e' - 1), true | exists s, false]; repeat split; congruence. }
+  destruct Hx as (f & closing & Hfs & -> & -> & ->).
+  pose proof (Hcan k) as Hc. pose proof HI as (H1 & H2 & H3 & H4).
+  specialize (H1 k). specialize (H2 k). specialize (H3 k). unfold runs_of in H1, H2, H3.
+  revert Hc H1 H2 H3.
+  destruct (aget peqb k (g_edges g)) as [[[a b] older]|] eqn:Hget; unfold merge_tl, ocanon, tl_list; cbn [fst snd];
+    intros Hc H1 H2 H3.
+  - assert (Hab : a <= b) by (simpl in Hc; tauto).
+    destruct (s <? a) eqn:E1; [intros (_ & ->) _; assumption|].
+    destruct (f <? s) eqn:E2.
+    { intros _ H; inversion H; subst. apply (InvLog_same g); auto. }
+    destruct (b + 1 <? s) eqn:E3.
+    { (* gap *)
+      intros (_ & Hget') H. injection H as Hg' _.
+      match type of Hg' with with_snaps (with_events _ ?ev) _ = _ => assert (Hev : g_events g' = ev) by (rewrite <- Hg'; reflexivity) end.
+      clear Hg'.
+      apply (InvLog_frame g g' k _ HI (runs_of_step _ _ _ _ Hget')); rewrite ?Hev; unfold tl_list; cbn [fst snd].
+      - intros k' t op Hk. destruct closing; rewrite ?has_event_add, Hk; bclean; reflexivity.
+      - destruct closing; repeat apply NoDup_add_event; exact H4.
+      - intros t. destruct closing; rewrite ?has_event_add, peqb_refl, H1; bclean; rewrite !is_start_cons;
+          destruct (is_start t older); lia.
+      - intros t. pose proof (H2 t) as Ht. rewrite !is_end_cons in *.
+        destruct closing; rewrite ?has_event_add, peqb_refl; bclean;
+        (destruct (has_event t k false (g_events g)); [specialize (Ht eq_refl)|]); destruct (is_end (t - 1) older); lia.
+      - intros x y [Heq|Hin] Hxy.
+        + inversion Heq; subst x y. destruct closing; [|specialize (Hfs eq_refl); lia].
+          rewrite has_event_add, peqb_refl, Z.eqb_refl. bclean. apply orb_true_r.
+        + pose proof (H3 x y Hin Hxy) as Hh. destruct closing; rewrite ?has_event_add, Hh; reflexivity. }
+    destruct (b <? f) eqn:E4.
+    { (* extend *)
+      intros (_ & Hget') H. injection H as Hg' _.
+      match type of Hg' with with_snaps (with_events _ ?ev) _ = _ => assert (Hev : g_events g' = ev) by (rewrite <- Hg'; reflexivity) end.
+      clear Hg'. revert Hev.
+      set (single := (a =? b) && (s =? b + 1) && negb closing && negb (has_event (b + 1) k false (g_events g))).
+      intros Hev.
+      apply (InvLog_frame g g' k _ HI (runs_of_step _ _ _ _ Hget')); rewrite ?Hev; unfold tl_list; cbn [fst snd].
+      - intros k' t op Hk. destruct single; cbn [andb negb]; rewrite ?has_event_add, ?has_event_del, Hk; bclean; reflexivity.
+      - destruct single; cbn [andb negb]; repeat apply NoDup_add_event; apply NoDup_del_event; exact H4.
+      - intros t. destruct single; cbn [andb negb]; rewrite ?has_event_add, ?has_event_del, peqb_refl, H1; bclean;
+          rewrite !is_start_cons; reflexivity.
+      - intros t. pose proof (H2 t) as Ht. rewrite !is_end_cons in *.
+        destruct single; cbn [andb negb]; rewrite ?has_event_add, ?has_event_del, peqb_refl; bclean;
+        (destruct (has_event t k false (g_events g)); [specialize (Ht eq_refl)|]); destruct (is_end (t - 1) older); lia.
+      - intros x y [Heq|Hin] Hxy.
+        + inversion Heq; subst x y. destruct single eqn:Es; cbn [andb negb].
+          * exfalso. unfold single in Es. destruct closing; [cbn [negb] in Es; lia | specialize (Hfs eq_refl); lia].
+          * rewrite has_event_add, peqb_refl, Z.eqb_refl. bclean. apply orb_true_r.
+        + pose proof (H3 x y (or_intror Hin) Hxy) as Hh.
+          pose proof (canon_in_lt _ _ _ Hc _ Hin) as Hlt. cbn [fst snd] in Hlt.
+          destruct single; cbn [andb negb]; rewrite ?has_event_add, ?has_event_del, Hh, peqb_refl; bclean; lia. }
+    { (* contained *)
+      intros (_ & Hget') H. injection H as Hg' _.
+      match type of Hg' with with_snaps (with_events _ ?ev) _ = _ => assert (Hev : g_events g' = ev) by (rewrite <- Hg'; reflexivity) end.
+      clear Hg'.
+      apply (InvLog_frame g g' k _ HI (runs_of_step _ _ _ _ Hget')); rewrite ?Hev; unfold tl_list; cbn [fst snd].
+      - intros k' t op Hk. destruct (closing && (f =? b)); rewrite ?has_event_add, ?Hk; bclean; reflexivity.
+      - destruct (closing && (f =? b)); repeat apply NoDup_add_event; exact H4.
+      - intros t. destruct (closing && (f =? b)); rewrite ?has_event_add, ?peqb_refl, H1; bclean; reflexivity.
+      - intros t. pose proof (H2 t) as Ht. rewrite !is_end_cons in *.
+        destruct (closing && (f =? b)) eqn:Ec; rewrite ?has_event_add, ?peqb_refl; bclean;
+        (destruct (has_event t k false (g_events g)); [specialize (Ht eq_refl)|]); destruct (is_end (t - 1) older); lia.
+      - intros x y Hin Hxy. pose proof (H3 x y Hin Hxy) as Hh.
+        destruct (closing && (f =? b)); rewrite ?has_event_add, Hh; reflexivity. }
+  - destruct (f <? s) eqn:E2.
+    { intros _ H; inversion H; subst. apply (InvLog_same g); auto. }
+    intros (_ & Hget') H. injection H as Hg' _.
+    match type of Hg' with with_snaps (with_events _ ?ev) _ = _ => assert (Hev : g_events g' = ev) by (rewrite <- Hg'; reflexivity) end.
+    clear Hg'.
+    apply (InvLog_frame g g' k _ HI (runs_of_step _ _ _ _ Hget')); rewrite ?Hev; unfold tl_list; cbn [fst snd].
+    + intros k' t op Hk. destruct closing; rewrite ?has_event_add, Hk; bclean; reflexivity.
+    + destruct closing; repeat apply NoDup_add_event; exact H4.
+    + intros t. destruct closing; rewrite ?has_event_add, peqb_refl, H1; bclean; rewrite !is_start_cons;
+        cbn [is_start existsb]; lia.
+    + intros t. pose proof (H2 t) as Ht. rewrite !is_end_cons. cbn [is_end existsb] in *.
+      destruct closing; rewrite ?has_event_add, peqb_refl; bclean;
+      (destruct (has_event t k false (g_events g)); [discriminate (Ht eq_refl)|]); lia.
+    + intros x y [Heq|[]] Hxy.
+      inversion Heq; subst x y. destruct closing; [|specialize (Hfs eq_refl); lia].
+      rewrite has_event_add, peqb_refl, Z.eqb_refl. bclean. apply orb_true_r.
+Qed.
+
+Theorem InvLog_run cs : forall g h, g_rem g = true -> Inv g h -> InvLog g -> InvLog (run_calls g cs).
+Proof.
+  induction cs as [|c r IH]; intros g h Hrem HI HL; simpl; [assumption|].
+  destruct (do_call g c) as [g' o] eqn:Hd. simpl.
+  assert (HL' : InvLog g').
+  { unfold do_call in Hd. eapply InvLog_step; eauto. intros k. apply (HI k). }
+  assert (Hrem' : g_rem g' = true).
+  { unfold do_call in Hd. pose proof (step_edges _ _ _ _ _ _ _ Hd) as Hst. cbv zeta in Hst.
+    destruct Hst as (_ & Hr & _). congruence. }
+  destruct (Inv_step' _ _ _ _ _ HI Hd) as (Hdone & Hrej).
+  destruct o; try (apply (IH g' (h ++ [c])); auto; fail);
+    (assert (g' = g) as -> by (apply Hrej; discriminate); apply (IH g h); auto).
+Qed.
